@@ -1,0 +1,46 @@
+//go:build verif
+
+package environment
+
+// Contracts for the verifier in /verif (comment-only; compiled only with -tags verif).
+// scopeOf(e, name, k): index of the innermost of the first k scopes that binds name, or -1.
+
+//@ func (e *Environment) isLocal(name string) (o object.Object, ok bool)
+//@   modifies nothing
+//@   ensures @C06 islocal.found: ok == (scopeOf(e, name, len(e.local)) >= 0)
+//@   ensures @C06 islocal.value: ok ==> o === e.local[scopeOf(e, name, len(e.local))][name]
+//@   ensures @C06 islocal.none:  !ok ==> o == nil
+//@   panics never
+//@ loop 1 invariant 0 <= ln && ln <= len(e.local) && scopeOf(e, name, len(e.local)) == scopeOf(e, name, ln)
+//@ loop 1 decreases ln
+
+//@ func (e *Environment) Get(name string) (o object.Object, ok bool)
+//@   modifies nothing
+//@   ensures @C06 get.local:  scopeOf(e, name, len(e.local)) >= 0 ==> ok && o === e.local[scopeOf(e, name, len(e.local))][name]
+//@   ensures @C06 get.global: scopeOf(e, name, len(e.local)) < 0 ==> ok == has(e.global, name) && (ok ==> o === e.global[name]) && (!ok ==> o == nil)
+//@   panics never
+
+//@ func (e *Environment) AddScope()
+//@   modifies e.local, e.local[*]
+//@   ensures @C06 addscope.len:  len(e.local) == old(len(e.local)) + 1
+//@   ensures @C06 addscope.keep: forall i in 0..old(len(e.local)) :: e.local[i] == old(e.local[i])
+//@   ensures @C06 addscope.new:  fresh(e.local[old(len(e.local))]) && e.local[old(len(e.local))] != nil && len(e.local[old(len(e.local))]) == 0
+//@   panics never
+
+//@ func (e *Environment) RemoveScope() (err error)
+//@   modifies e.local
+//@   ensures @C06 removescope.some: old(len(e.local)) > 0 ==> err == nil && e.local === old(e.local)[:old(len(e.local))-1]
+//@   ensures @C06 removescope.none: old(len(e.local)) == 0 ==> err != nil && e.local === old(e.local)
+//@   panics never
+
+//@ func (e *Environment) GetFunction(name string) (fun interface{}, ok bool)
+//@   modifies nothing
+//@   ensures @C20 getfunction.def: ok == has(e.functions, name) && (ok ==> fun === e.functions[name])
+//@   panics never
+
+//@ func (e *Environment) SetFunction(name string, fun interface{}) (result interface{})
+//@   requires e.functions != nil
+//@   modifies e.functions[*]
+//@   ensures @C20 setfunction.def: has(e.functions, name) && e.functions[name] === fun && result === fun
+//@   ensures @C20 setfunction.keep: forall k string :: k != name ==> has(e.functions, k) == old(has(e.functions, k)) && e.functions[k] === old(e.functions[k])
+//@   panics never
